@@ -205,6 +205,11 @@ def gen_case(rng, tier, direction=None, feats=None):
             case['calEarly'] = [[nm, 'replace', rng.choice(CALS)(rng)]]
         if rng.random() < 0.6 and not case.get('prior'):
             case['prior'] = 'ok'
+    if rng.random() < 0.3:
+        case['objAttrs'] = True
+    if rng.random() < 0.3:
+        # the plan is looked at before it is scheduled: its span, every task's relatives (read-only accessors)
+        case['peek'] = True
     if links and rng.random() < 0.15:
         # the WBS is edited (its last link added) between two calcs of the same scheduler on the same WBS object
         case['lateLink'] = True
@@ -247,6 +252,20 @@ def random_case(prop, rng, tier):
 
 # ------------------------------------------------------------------------------------ building the real objects
 
+class _Owner:
+    """an application object without __eq__: equal only to itself"""
+
+
+_OWNER = _Owner()
+
+
+def val_key(v):
+    """custom attribute values are compared as values when they are plain data, by identity otherwise"""
+    if v is None or isinstance(v, (str, int, float, bool, list, dict, tuple, datetime, timedelta)):
+        return repr(v)
+    return f'object@{id(v)}'
+
+
 def build(case, hold_last_link=False):
     """`hold_last_link`: the last link of the case is not made; it is returned as `pending` (objs indices) for the caller to add later"""
     from pjplan import Task, WBS
@@ -270,6 +289,12 @@ def build(case, hold_last_link=False):
             kw['end'] = from_us(t['end'])
         if i % 3 == 0:
             kw['tag'] = f'x{i}'
+        if case.get('objAttrs'):
+            # custom attributes of every kind: falsy values, a container, an object compared by identity that several tasks share, and (below)
+            # a reference to a task of another project
+            kw.update([('prio', 0), ('note', ''), ('labels', []), ('ratio', 0.0), ('blocked', False)][i % 5:][:2])
+            if i % 2 == 0:
+                kw['owner'] = _OWNER
         o = Task(t['id'], f"t{i}", resource=t['res'], **kw)
         if t['member']:
             if t['parent'] is None:
@@ -280,6 +305,8 @@ def build(case, hold_last_link=False):
             others.append(WBS())
             others[-1] // o           # member of another project
         objs.append(o)
+    if case.get('objAttrs') and len(objs) >= 2:
+        objs[0].mirror_of = objs[-1]
     accepted = []
     links = list(case['links'])
     build.pending = None
@@ -427,7 +454,7 @@ def run_calc(case, w, objs, clock=None, scheduler=None, main=False, between=None
            'wbs': [us_or_none(s.start), us_or_none(s.end)],
            'structure': [[t.id, None if t.parent is None else t.parent.id, [c.id for c in t.children],
                           sorted(set(p.id for p in t.predecessors)), sorted(set(p.id for p in t.successors)), t.wbs is s,
-                          sorted((k, repr(v)) for k, v in t.__dict__.items() if not k.startswith('_') and k not in ('start', 'end'))]
+                          sorted((k, val_key(v)) for k, v in t.__dict__.items() if not k.startswith('_') and k not in ('start', 'end'))]
                          for t in s.tasks],
            'reserved': [[key_of(r.resource.name), to_us(r.date) // DAY_US, frac_str(sch.resource_usage.reserved(r.resource, r.date))]
                         for r in rows[:6]],
@@ -473,6 +500,10 @@ def execute(prop, case):
     w, objs, others, _ = build(case, hold_last_link=bool(case.get('lateLink')))
     pending = build.pending
     box = {}
+    if case.get('peek'):
+        (w.start, w.end, len(w.tasks), len(w.roots))
+        for o in objs:
+            (o.all_parents, o.all_children, o.all_predecessors, o.all_successors, o.parent, o.wbs, o.to_dict())
 
     def between():
         # the WBS is edited after the scheduler has already seen it: the last link is made now
@@ -493,7 +524,7 @@ def execute(prop, case):
         mine = set(id(x) for x in objs)
         want = [[o.id, None if o.parent is None else o.parent.id, [c.id for c in o.children], sorted(set(p.id for p in o.predecessors)),
                  sorted(set(p.id for p in o.successors if id(p) in mine)), True,
-                 sorted((k, repr(v)) for k, v in o.__dict__.items() if not k.startswith('_') and k not in ('start', 'end'))]
+                 sorted((k, val_key(v)) for k, v in o.__dict__.items() if not k.startswith('_') and k not in ('start', 'end'))]
                 for o in w.tasks]
         rec['structure_same'] = want == obs['structure']
     if prop == 'C14':
